@@ -557,7 +557,7 @@ temperature totals (units with an offset) are compared with the model only".into
     corpus_cases(ctx, &conv, &parser);
 
     // ---- groups: all permutations of small multisets
-    let n_small = if ctx.thorough { 6000 } else { 260 };
+    let n_small = if ctx.thorough { 6000 } else { 700 };
     for _ in 0..n_small {
         let fam = family(&mut rng);
         let n = 1 + rng.below(5);
@@ -574,7 +574,7 @@ temperature totals (units with an offset) are compared with the model only".into
         }
     }
     // ---- larger multisets, random orders
-    for _ in 0..(if ctx.thorough { 60_000 } else { 1500 }) {
+    for _ in 0..(if ctx.thorough { 60_000 } else { 4000 }) {
         let fam = family(&mut rng);
         let n = 6 + rng.below(7);
         let mut qs: Vec<ScaledQuantity> = (0..n).map(|_| quantity(&mut rng, &fam)).collect();
@@ -590,7 +590,7 @@ temperature totals (units with an offset) are compared with the model only".into
         }
     }
     // ---- merge, fit
-    for _ in 0..(if ctx.thorough { 80_000 } else { 2500 }) {
+    for _ in 0..(if ctx.thorough { 80_000 } else { 6000 }) {
         let fam = family(&mut rng);
         let a: Vec<ScaledQuantity> = (0..rng.below(6)).map(|_| quantity(&mut rng, &fam)).collect();
         let b: Vec<ScaledQuantity> = (0..rng.below(6)).map(|_| quantity(&mut rng, &fam)).collect();
@@ -605,7 +605,7 @@ temperature totals (units with an offset) are compared with the model only".into
         } }
     }
     // ---- cookware amounts
-    for _ in 0..(if ctx.thorough { 40_000 } else { 1500 }) {
+    for _ in 0..(if ctx.thorough { 40_000 } else { 3000 }) {
         let vs: Vec<Value> = (0..rng.below(7)).map(|_| if rng.chance(1, 4) { Value::Text(rng.pick(&["big", "small", ""]).to_string()) } else { value(&mut rng) }).collect();
         gvalue_case(ctx, &vs);
     }
@@ -630,7 +630,7 @@ temperature totals (units with an offset) are compared with the model only".into
     }
     // ---- recipes, lists, aisles
     let mut parsed = 0u64;
-    for _ in 0..(if ctx.thorough { 60_000 } else { 2200 }) {
+    for _ in 0..(if ctx.thorough { 60_000 } else { 6000 }) {
         let k = 1 + rng.below(4);
         let mut texts = vec![]; let mut recipes = vec![];
         for _ in 0..k {
@@ -645,7 +645,7 @@ temperature totals (units with an offset) are compared with the model only".into
     }
     ctx.count_n("recipe:lists", parsed);
     // ---- lists built directly
-    for _ in 0..(if ctx.thorough { 40_000 } else { 1500 }) {
+    for _ in 0..(if ctx.thorough { 40_000 } else { 4000 }) {
         let a = aisle_text(&mut rng);
         let fam = family(&mut rng);
         let entries: Vec<(String, Vec<ScaledQuantity>)> = (0..rng.below(6)).map(|_| {
